@@ -20,9 +20,40 @@ PROPS = {
     },
 }
 
+PROPS["C05"] = {
+    "lean_modules": ["EcModel.Props.C05"],
+    "harness": ["c05"],
+    "drivers": {"c05": "drv_seq"},
+    "t1_facts": ["ETHERCAT_ETHERTYPE", "MAINDEVICE_ADDR", "LEN_MASK", "FrameState", "transition"],
+    "modelled": "PduRx::receive_frame, EthernetFrame::{new_checked,ethertype,src_addr,payload}, EthercatFrameHeader::unpack, "
+                "PduStorageRef::{frame_index_by_first_pdu_index,claim_receiving}, ReceivingFrame::mark_received, and (for the "
+                "set-up of slot states) the whole sequential storage API in Slots.lean",
+    "rule": "per case: 1/2/4 slots of 28..72 bytes; a random prefix of 0-30 real operations (alloc, pushes, mark_sendable, TX claim/"
+            "send ok/partial/err, genuine responses, polls, drops, response reads, clock advances) puts the slots into reachable "
+            "states; then 1-6 deliveries of: a genuine echo, truncated at any point, extended, own source MAC, other EtherType, "
+            "EtherCAT length 0..2047, protocol nibble 0..15, index 0..255, lying datagram length, oversize payload, bit flip, raw "
+            "noise, or a well-formed frame for an index nobody awaits; result token and full snapshot of every slot compared with the "
+            "model; non-trivial = case in which at least one frame was accepted; distinct = distinct case line",
+    "assumptions": [
+        "sequential delivery (RX is one task: &mut self); interleavings with other tasks are C01/C02",
+        "'never panics' of the implementation rests on the translation of which operations can panic (checked by catch_unwind on every generated case) ",
+    ],
+}
+
 NOT_APPLICABLE = {}
 
 MANIFEST_TEXT = {
+    "C05": {
+        "text": "Theorems for every byte list and every storage state (any slot count/contents): rx_total (no panic branch "
+                "reachable), rx_cases (complete characterisation: either nothing changes or exactly the first slot in Sent whose "
+                "marker equals the frame's first index is claimed and receives exactly the declared payload inside its PDU area), "
+                "rx_frame_condition, rx_rejects_strangers, rx_accepts_only_awaiting, rx_ignores, rx_copy_bounded. Tied to the code "
+                "by regenerated constants and by diffing result + full slot snapshots on mutated frames in reachable slot states.",
+        "note": "Trusted: Lean kernel; hand translation of receive_frame (incl. which slice operations can panic); the set-up "
+                "operations' model is validated by the same correspondence. An oversize payload leaves the accepted slot in RxBusy "
+                "(allowed by the property; recovered by the deadline, C06).",
+        "technique": "Lean 4 proof (case analysis of a total model, all inputs and states) + differential correspondence",
+    },
     "C04": {
         "text": "Theorem frame_wellformed: for every frame size <= 2063 and every sequence of push_pdu / push_pdu_slice_rest "
                 "calls with any index values, the bytes given to the driver equal an independently written encoder applied to "
@@ -35,3 +66,18 @@ MANIFEST_TEXT = {
         "technique": "Lean 4 proof (invariant by induction over push operations) + differential correspondence",
     },
 }
+
+
+if __name__ == "__main__":
+    import sys
+    if "--targets" in sys.argv:
+        seen = []
+        for pid, cfg in PROPS.items():
+            for m in cfg["lean_modules"]:
+                if m not in seen:
+                    seen.append(m)
+            for k in cfg.get("harness", []):
+                d = cfg.get("drivers", {}).get(k, "drv_" + k)
+                if d not in seen:
+                    seen.append(d)
+        print(" ".join(seen))
